@@ -33,9 +33,17 @@ func genC16(t *rapid.T, thorough bool) C16Case {
 		rapid.IntRange(-100, 100),
 		rapid.OneOf(rapid.IntRange(-3, 3), rapid.SampledFrom([]int{math.MinInt, math.MinInt + 1, math.MaxInt - 1, math.MaxInt, 0, 1 << 31, -(1 << 31)}), rapid.Int()),
 	}).Draw(t, "coordgen")
+	// "sparse" sets: many intervals, most of them empty, so that the few covering intervals have
+	// large and widely spread indices (answers must not depend on which indices cover a position)
+	sparse := n >= 20 && rapid.Bool().Draw(t, "sparse")
 	for i := 0; i < n; i++ {
 		s := coord.Draw(t, "start")
 		var e int
+		if sparse && rapid.IntRange(0, 9).Draw(t, "real") < 8 {
+			c.Starts = append(c.Starts, s)
+			c.Ends = append(c.Ends, s)
+			continue
+		}
 		switch rapid.IntRange(0, 9).Draw(t, "shape") {
 		case 0:
 			e = s // empty
@@ -226,6 +234,36 @@ func exhaustiveC16(thorough bool, emit func(C16Case) bool) {
 		return true
 	}
 	rec(nil, nil)
+	// Index relabelling: two overlapping pairs of intervals placed at every choice of four indices
+	// among n (all other intervals empty). The answers depend only on which intervals cover a
+	// position, never on their indices.
+	n := 34
+	if thorough {
+		n = 44
+	}
+	for i := 0; i < n; i++ {
+		for j := i + 1; j < n; j++ {
+			for k := 0; k < n; k++ {
+				if k == i || k == j {
+					continue
+				}
+				for l := k + 1; l < n; l++ {
+					if l == i || l == j {
+						continue
+					}
+					s, e := make([]int, n), make([]int, n)
+					for x := range s {
+						s[x], e[x] = 5, 5
+					}
+					s[i], e[i], s[j], e[j] = 0, 2, 1, 3
+					s[k], e[k], s[l], e[l] = 10, 12, 11, 13
+					if !emit(C16Case{Starts: s, Ends: e}) {
+						return
+					}
+				}
+			}
+		}
+	}
 	// Length mismatches.
 	for a := 0; a < 4; a++ {
 		for b := 0; b < 4; b++ {
